@@ -1508,7 +1508,8 @@ class Stream(AbstractStream):
                 self.reduce_phases()
             else:
                 if energy_balance: 
-                    self._imol.mix_from([i._imol for i in streams])
+                    imols = [i._imol.copy() if i is self else i._imol for i in streams]
+                    self._imol.mix_from(imols)
                     H = sum([i.H for i in streams], Q)
                     if conserve_phases: 
                         self.H = H
@@ -1517,7 +1518,7 @@ class Stream(AbstractStream):
                             self.H = H
                         except:
                             self.phases = self.phase + ''.join([i.phase for i in others])
-                            self._imol.mix_from([i._imol for i in streams])
+                            self._imol.mix_from(imols)
                             self.H = H
                 else:
                     self._imol.mix_from([i._imol for i in streams])
